@@ -46,3 +46,13 @@ Fixpoint explore {A} (fuel : nat) (pl : pool A) (f : fs) : option (list (list A 
              end) (successors [] pl f)
       end
   end.
+
+(* two pools with different result types on one cache (writers and observers): a transition is a step of a thread of
+   either pool *)
+Inductive ostep {A B} : pool A * pool B * fs -> pool A * pool B * fs -> Prop :=
+| OL pl pl' rl f f' : pstep (pl, f) (pl', f') -> ostep (pl, rl, f) (pl', rl, f')
+| OR pl rl rl' f f' : pstep (rl, f) (rl', f') -> ostep (pl, rl, f) (pl, rl', f').
+
+Inductive oreach {A B} : pool A * pool B * fs -> pool A * pool B * fs -> Prop :=
+| ORefl s : oreach s s
+| OTrans s1 s2 s3 : ostep s1 s2 -> oreach s2 s3 -> oreach s1 s3.
